@@ -47,17 +47,20 @@ CTX = [T + n for n in ["_enter_context", "_leave_context", "_pause_contexts", "_
 
 A_ENV_GEN = ("the task body is unknown code behind generator.send/throw/close (environment contract E1/E2); E4: awaiting is acyclic - "
              "while a task's body runs or its context hooks run nothing re-enters that task (site assumptions in contracts/*_c.py)")
-A_UNWRAP = ("unwrap's body is verified against a one-level unfolding of the relation R_unwrap (same shape, futures replaced by their values; "
-            "R_unwrap is defined as the least relation closed under the introduction rules R_intro); _continue uses the caller-facing contract "
-            "unwrap!effectfree (no callout because every leaf is computed at its only call site: trusted). extract_futures' body is verified "
-            "against one-level unfoldings of Leaf/EFN/EFS/EFP (count, soundness, completeness, segment of every member right-to-left / dict values "
-            "left-to-right) under the assumption that the scanned structure is a finite acyclic nest that is not mutated during the scan and does "
-            "not contain the accumulator; order at depth and the 'first failing leaf in structure order' clause of unwrap are covered by the "
-            "bounded stand-in bounded:structures (all yielded structures to depth 2/3, width 3), labelled bounded, not proved")
+A_UNWRAP = ("unwrap's body is verified twice against one-level unfoldings of the relation R_unwrap (same shape, futures replaced by their "
+            "values; R_unwrap is the least relation closed under the introduction rules R_intro): in general (async_task.unwrap) and under "
+            "'every future inside the value is computed' (async_task.unwrap!computed: runs no unknown code, writes only containers it created), "
+            "which is the contract _continue uses.  Site assumptions of _continue: (A) the dependencies of a suspended task still cover every "
+            "future inside its last yielded value (proved when the value is accepted, assumed to survive the suspension: yielded containers are "
+            "not mutated meanwhile); (W) an exception stored in a future never carries the private marker.  extract_futures' body is verified "
+            "against one-level unfoldings of Leaf/EFN/EFS/EFP (count, soundness, completeness, segment of every member right-to-left / dict "
+            "values left-to-right) under the assumption that the scanned structure is a finite acyclic nest that is not mutated during the scan "
+            "and does not contain the accumulator; order at depth and the 'first failing leaf in structure order' clause of unwrap are covered "
+            "by the bounded stand-in bounded:structures (all yielded structures to depth 2/3, width 3), labelled bounded, not proved")
 
 PROPERTIES = {
     "C01": {
-        "functions": [T + "_continue", T + "_continue_on_generator", T + "_accept_yield_result", T + "_queue_exit", "async_task.unwrap", "async_task.extract_futures",
+        "functions": [T + "_continue", T + "_continue_on_generator", T + "_accept_yield_result", T + "_queue_exit", "async_task.unwrap", "async_task.unwrap!computed", "async_task.extract_futures",
                       T + "_compute", T + "_computed", F + "FutureBase.value", F + "FutureBase.set_value",
                       S + "wait_for", S + "_execute", S + "_continue_with_task"],
         "assumptions": [A_ENV_GEN, A_UNWRAP,
@@ -66,7 +69,7 @@ PROPERTIES = {
         "not_proved": ["whole-program equality with sequential evaluation (composition argument)", "composition of the one-level unwrap/extract_futures contracts over nesting depth (bounded: structures)"],
     },
     "C02": {
-        "functions": [T + "_continue", T + "_accept_error", T + "_queue_throw_error", T + "is_blocked", "async_task.unwrap",
+        "functions": [T + "_continue", T + "_accept_error", T + "_queue_throw_error", T + "is_blocked", "async_task.unwrap", "async_task.unwrap!computed",
                       T + "_continue_on_generator", S + "_handle_async_task", S + "_execute",
                       F + "Future._compute", F + "FutureBase.value", F + "FutureBase.raise_if_error", F + "FutureBase.set_error",
                       B + "BatchBase._compute", B + "BatchBase._computed"],
